@@ -70,7 +70,7 @@ def build_state(kind, statedir):
     app = BptkServer(__name__, bptk_factory, FileAdapter(False, statedir), TOKEN)
     c = app.test_client()
     inst = None
-    if kind in ("session", "locked"):
+    if kind in ("session", "locked", "persisted"):
         r = c.post("/start-instance", headers=auth(TOKEN), json={"timeout": {"hours": 1}})
         inst = json.loads(r.data)["instance_uuid"]
         c.post("/%s/begin-session" % inst, headers=auth(TOKEN),
@@ -78,6 +78,11 @@ def build_state(kind, statedir):
         c.post("/%s/run-step" % inst, headers=auth(TOKEN), json={"settings": {"sm": {"1": {"constants": {"constant": 3.0}}}}})
         if kind == "locked":
             app._instance_manager._instances[inst]["instance"].lock()
+        if kind == "persisted":
+            # the instance's state is in the external store but not in this server's memory (what an idle timeout, or
+            # a second replica on the same store, leaves behind): a request may restore it - a refused one must not
+            app._instance_manager._instances[inst]["instance"].destroy()
+            del app._instance_manager._instances[inst]
     return app, c, inst
 
 
@@ -121,7 +126,8 @@ def requests_for(app, inst):
         if rule.endpoint == "static":
             continue
         for method in sorted(rule.methods - {"HEAD", "OPTIONS"}):
-            ids = [inst or "0" * 32, "ffffffffffffffffffffffffffffffff"] if "<instance_uuid>" in rule.rule else [None]
+            # "0"*32 is a placeholder: probe() substitutes the id of the instance of ITS OWN fresh server
+            ids = ["0" * 32, "ffffffffffffffffffffffffffffffff"] if "<instance_uuid>" in rule.rule else [None]
             for i in ids:
                 url = rule.rule.replace("<instance_uuid>", i) if i else rule.rule
                 out.append((rule.rule, method, url))
@@ -197,7 +203,7 @@ def run(tier):
             rep.inconcl("sanity: GET /scenarios with the right token returned %d" % r.status_code)
         else:
             served_ok += 1
-        for kind in ("none", "session", "locked"):
+        for kind in ("none", "session", "locked", "persisted"):
             app, c, inst = build_state(kind, tempfile.mkdtemp(prefix="c15-s-", dir=root))
             reqs = [q for q in requests_for(app, inst) if q[0] not in PUBLIC]
             for (rule, method, url) in reqs:
@@ -235,7 +241,7 @@ def run(tier):
                 rep.inconcl("%s: CrossHair verdict %s (%s)" % (fn, r.verdict, r.message[:200]))
         samples.append({"condition": fn + "/" + kind, "verdict": r.verdict, "seconds": round(r.seconds, 1)})
     rep.assume("decorator: header <= %d characters, token <= %d characters (symbolic unicode strings), presence flag symbolic" % (hm, tm),
-               "route table: enumerated from the live app's url_map (finite); credential shapes are %d fixed boundary cases; three server states" % len(credentials(TOKEN)),
+               "route table: enumerated from the live app's url_map (finite); credential shapes are %d fixed boundary cases; four server states (no instance, session, locked session, session persisted but not in memory)" % len(credentials(TOKEN)),
                "Flask/Werkzeug routing and header parsing are trusted")
     rep.coverage.update({"states": experiments + chx.STATS["conditions"], "transitions": max(1, confirmed + experiments - len(rep.cands)),
                          "traces_validated_against_impl": experiments, "samples": samples,
